@@ -20,6 +20,8 @@ def run(ctx) -> None:
                              "taken of the filtered values; no value -> None (mean/min/max/stdev), 0 (sum)", 7)
     ctx.rule("c.aggregators", "each of the 12 group aggregators (aggregate x6, window x6) filters None, uses the textbook reducer, "
                               "the right empty-group result, minimum count and divisor", 12)
+    ctx.rule("c.aggregator-applied", "every group's value is fn(values of the group): exactly one call per group, no path around the "
+                                     "aggregate function (a pass-through would leak a None)", 2)
     ctx.rule("c.siblings", "aggregate, window and Vector reductions are fact-equal per function", 10)
     ctx.rule("d.na-triple", "isna marks `x is None`, dropna keeps exactly `x is not None` (result non-nullable), fillna replaces "
                             "exactly `x is None` and nothing else", 4)
@@ -117,6 +119,9 @@ def _aggregators(ctx) -> None:
     gr.aggregator_table(ctx, agg, "c.aggregators")
     gr.aggregator_table(ctx, win, "c.aggregators")
     gr.siblings(ctx, agg, win, "c.siblings")
+    # the None-skipping aggregator is what produces every group's value (no bypass around it)
+    gr.group_value_flow(ctx, agg, "c.aggregator-applied")
+    gr.group_value_flow(ctx, win, "c.aggregator-applied")
 
 
 def _na(ctx) -> None:
@@ -162,6 +167,18 @@ def _na(ctx) -> None:
 
 _V, _T = "vector", "table"
 MUTANTS = [
+    dict(id="window-singleton-passthrough", module="table",
+         old="				vals = [data[i] for i in rows]\n				out[key] = fn(vals)",
+         new="				vals = [data[i] for i in rows]\n				out[key] = fn(vals) if len(rows) > 1 else data[rows[0]]",
+         rules=["c.aggregator-applied"], desc="a one-row partition leaks its None instead of the aggregate of nothing"),
+    dict(id="aggregate-singleton-passthrough", module="table",
+         old="				res = func(vals)\n				out.append(res)", new="				res = vals[0] if len(vals) == 1 else func(vals)\n				out.append(res)",
+         rules=["c.aggregator-applied"]),
+    dict(id="window-helper-extra-flag", module="table",
+         old="		def compute_group_values(col, fn):\n			data = col._underlying\n			out = {}\n			for key, rows in group_items:\n",
+         new="		def compute_group_values(col, fn, passthrough=False):\n			data = col._underlying\n			out = {}\n			for key, rows in group_items:\n"
+             "				if passthrough and len(rows) == 1:\n					out[key] = data[rows[0]]\n					continue\n",
+         rules=["c.aggregator-applied"]),
     dict(id="compare-kernel-drops-none-guard", module=_V,
          old="		result_values = tuple(False if x is None else bool(op(x, other)) for x in self)",
          new="		result_values = tuple(bool(op(x, other)) for x in self)", rules=["a.compare-kernels"]),
